@@ -159,18 +159,19 @@ def run(tier, v):
     # ---- 1. the design: exhaustive model checking (runs beside the harness build and the generators)
     mc_jobs = [("mc", "MC_Inhibit.cfg", {})]
     if thorough:
-        mc_jobs = [("mc", "MC_Inhibit_thorough.cfg", {}), ("mc_2r", "MC_Inhibit_2r.cfg", {}), ("mc_eq", "MC_Inhibit_eq.cfg", {})]
+        mc_jobs = [("mc_queue", "MC_Inhibit_thorough.cfg", {}), ("mc_time", "MC_Inhibit_time.cfg", {}),
+                   ("mc_2r", "MC_Inhibit_2r.cfg", {}), ("mc_eq", "MC_Inhibit_eq.cfg", {})]
     mcs = {}
 
-    def run_mc(name, base, subst):
-        try:
-            subst = dict(subst, KnownGaps=known)
-            cfg = derive_cfg(base, "x_" + base, subst)
-            mcs[name] = vlib.tlc(PID, name, "MC_Inhibit", "x_" + base, workers=4 if not thorough else 5,
-                                 timeout=800 if thorough else 110, coverage=False, files=[cfg])
-        except Exception as e:       # judged after join
-            mcs[name] = e
-    ths = [threading.Thread(target=run_mc, args=j) for j in mc_jobs]
+    def run_mcs():        # one after the other, 4 workers, beside the generators (4 workers) and the replay
+        for name, base, subst in mc_jobs:
+            try:
+                cfg = derive_cfg(base, "x_" + base, dict(subst, KnownGaps=known))
+                mcs[name] = vlib.tlc(PID, name, "MC_Inhibit", "x_" + base, workers=4,
+                                     timeout=1500 if thorough else 300, coverage=False, files=[cfg])
+            except Exception as e:       # judged after join
+                mcs[name] = e
+    ths = [threading.Thread(target=run_mcs)]
     for t in ths:
         t.start()
 
@@ -187,8 +188,8 @@ def run(tier, v):
                                                     "Queries": '{"S1", "S2", "B", "T", "T2"}', "ScacheGCEvery": "2", "ProvGCEvery": "3"}, None, None),
                      ("exh_eq", "Gen_Inhibit.cfg", {"UseRuleSets": '{"E0", "E2"}', "PutAlerts": '{"S1", "S3", "B"}', "HistLen": "4",
                                                     "Queries": '{"S1", "B", "T", "T2", "T3"}', "ProvGCEvery": "1"}, None, None)]
-        # -simulate num is per worker (6 workers)
-        jobs += [("sim", "Sim_Inhibit.cfg", {}, "num=%d" % (3400 if thorough else 420), 36)]
+        # -simulate num is per worker (4 workers)
+        jobs += [("sim", "Sim_Inhibit.cfg", {}, "num=%d" % (5000 if thorough else 700), 36)]
         for name, base, subst, sim, depth in jobs:
             cfg = derive_cfg(base, "g_%s.cfg" % name, dict(subst, KnownGaps=known))
             gp = os.path.join(wd, "gen_%s.jsonl" % name)
@@ -255,12 +256,15 @@ def run(tier, v):
         "mc_runs": cover,
         "samples": sample,
         "exhaustive": True,
-        "bounds": ("MC: " + ("E1 with 3 alerts (2 sources sharing equal values + two-sided), time 0..3, explicit/timeout ends, subscription queue of 1, free GC instants; "
-                             "D1 (2 rules, mutual) with 4 alerts; E0/E1/E2 with a source of other equal values" if thorough else
-                             "rule equal=[c], alerts S1,S2 (sources sharing equal values) + B (two-sided), queries S1,B,T,T2, time 0..2, ends now..now+2, "
-                             "timeout and explicit ends, GC of rule cache and provider at any instant")
+        "bounds": ("MC: " + ("rule equal=[c], S1,S2 (sources sharing equal values) + B (two-sided): (a) time 0..2 with a subscription queue of 1, explicit and timeout ends, "
+                             "both start modes, (b) time 0..3 without queue; 2 rules D1 (a=x inhibits b=x on [c]; b=x inhibits a=x on [c,d]) with S1,S2,B,T; "
+                             "equal=[] and [c,d] with a source of other equal values (S3); rule-cache GC and provider GC at any instant" if thorough else
+                             "rule equal=[c], alerts S1,S2 (sources sharing equal values) + B (two-sided), queries S1,B,T,T2, time 0..3, ends now..now+2 "
+                             "(every refresh honoured), rule-cache GC and provider GC at any instant")
                    + "; Gen: " + ", ".join("%s=%d" % (n, g.behaviours) for n, _, _, g in gens)
-                   + " behaviours (exh: all histories of 5 ops over put{S1,S2,B}x{resolve,fire}+tick; sim: 30 ops, 5 rule sets incl. 2-rule sets, 6 alerts, 7 queries)"),
+                   + " behaviours (exh: all histories of 5 ops over put{S1,S2,B}x{resolve,fire}+tick, i.e. every arrival order; "
+                     "exh_deep: 6 ops; exh_wide: 4 ops with 3 ends x timeout/explicit; exh_2r: 2 rules; exh_eq: equal=[] and [c,d]; "
+                     "sim: 30 ops, 5 rule sets incl. 2-rule sets and regex/negative matchers, 6 alerts, 7 queries, both start modes)"),
     }
     assumptions = [
         "UpdatedAt of a submitted alert is its ingestion instant (as api/v2 sets it), so the newer submission is the younger alert in Alert.Merge",
@@ -278,7 +282,7 @@ def _gen(name, gp, sim, depth, cfg, thorough, seed):
     # vlib.gen_behaviours has no `files`/`extra` parameters: same steps through vlib.tlc
     import hashlib
     raw = gp + ".raw"
-    r = vlib.tlc(PID, "gen_" + name, "Gen_Inhibit", os.path.basename(cfg), workers=6, timeout=900 if thorough else 100,
+    r = vlib.tlc(PID, "gen_" + name, "Gen_Inhibit", os.path.basename(cfg), workers=4, timeout=900 if thorough else 100,
                  simulate=sim, depth=depth, marker="@@H ", payload_to=raw, files=[cfg], extra=extra)
     if r.timed_out and not sim:
         raise vlib.Inconclusive("Gen %s timed out" % name)
